@@ -126,7 +126,9 @@ def rand_history(rng):
                 rows.append(reformat(rng, last_rows[i]))
             else:
                 rows.append(rand_row(rng, rng.choice([0, 1, max(0, cur_w - 1), cur_w, cur_w, cur_w + 1, cur_w + 3])))
-        kind = rng.choices(["fsarray", "fsarray_rowassign", "list", "inplace"], [22, 10, 53, 15])[0]
+        kind = rng.choices(["fsarray", "fsarray_rowassign", "list", "inplace", "from_text"], [22, 10, 50, 15, 6])[0]
+        if ops and ops[-1][0] == "resize" and rng.random() < 0.3:
+            kind = "from_text_early"     # laid out by the window BEFORE the size change, rendered after it
         ops.append(["render", kind, rows, [rng.randrange(cur_h), rng.randrange(cur_w)]])
         last_rows = rows
         last_size = (cur_h, cur_w)
@@ -179,6 +181,10 @@ def build_row(row, prev):
     if row[0] == "same":
         return old
     return getattr(fmtfuncs, row[2])(old)
+
+
+def _from_text(w, rows):
+    return w.array_from_text("\n".join(r if isinstance(r, str) else r.s for r in rows))
 
 
 def canon_row(obj):
@@ -248,14 +254,27 @@ def _run(inp):
         with w:
             res["enter"] = take()
             keep = None
-            for op in inp["ops"]:
+            early = None
+            for k, op in enumerate(inp["ops"]):
                 if op[0] == "resize":
+                    nxt = inp["ops"][k + 1] if k + 1 < len(inp["ops"]) else None
+                    if nxt is not None and nxt[0] == "render" and nxt[1] == "from_text_early":
+                        early = _from_text(w, [build_row(r, prev) for r in nxt[2]])
                     _SIZE[0], _SIZE[1] = op[1], op[2]
                     continue
                 rows = [build_row(r, prev) for r in op[2]]
                 prev = rows
-                res["arrays"].append([canon_row(r) for r in rows])
-                if op[1] == "inplace" and isinstance(keep, FSArray) and len(keep.rows) == len(rows):
+                if op[1] in ("from_text", "from_text_early"):
+                    # the window's own array_from_text(): the text of the rows, laid out for the terminal size of the
+                    # moment ("early": of the moment before the size change that precedes this render)
+                    arr = early if op[1] == "from_text_early" and early is not None else _from_text(w, rows)
+                    early = None
+                    res["arrays"].append([canon_row(r) for r in arr.rows])
+                else:
+                    res["arrays"].append([canon_row(r) for r in rows])
+                if op[1] in ("from_text", "from_text_early"):
+                    pass
+                elif op[1] == "inplace" and isinstance(keep, FSArray) and len(keep.rows) == len(rows):
                     # the application keeps ONE array object across frames, changes rows of it and renders it again
                     arr = keep
                     for i, r in enumerate(rows):
